@@ -1,5 +1,6 @@
 (* C05 — List behaves as an ordered sequence with reference semantics under any program. *)
 From Anytype Require Import Base FloatBits Value Sorting Heap Slice HeapProofs.
+From Anytype Require CloneProofs. From Anytype Require Import Footprint.
 Local Open Scope Z_scope.
 
 (* (1) The library's slice surgery (append / copy / make on backing arrays with spare capacity, any growth policy) behaves,
@@ -62,6 +63,20 @@ Example C05_alias_visible :
   map fst tr = [Ret (OV (HL 0%nat)); Ret (OV (HO 1%nat)); Ret ONone; Ret (OV (HO 1%nat)); Ret ONone; Ret (OV (HInt 1))].
 Proof. vm_compute. reflexivity. Qed.
 
+
+(* footprint: a method-style mutator writes at most ONE heap cell, the receiver's own container, and leaves the environment alone;
+   hence every value from which the receiver is not reachable reads the same before and after (aliases of the receiver do see it) *)
+Theorem C05_mutator_footprint : forall s o r, basic_mutator o = Some r ->
+  st_env (fst (step_core s o)) = st_env s /\
+  (st_heap (fst (step_core s o)) = st_heap s \/
+   exists id c, (nth_error (st_env s) r = Some (HL id) \/ nth_error (st_env s) r = Some (HO id)) /\ (id < length (st_heap s))%nat /\
+                st_heap (fst (step_core s o)) = upd (st_heap s) id c).
+Proof. exact basic_mutator_footprint. Qed.
+Theorem C05_mutator_independent : forall s o r vr w f, basic_mutator o = Some r -> nth_error (st_env s) r = Some vr ->
+  (forall id, CloneProofs.Reach (st_heap s) w id -> vr <> HL id /\ vr <> HO id) ->
+  reify f (st_heap (fst (step_core s o))) w = reify f (st_heap s) w.
+Proof. exact basic_mutator_independent. Qed.
+
 Print Assumptions C05_program_refines.
 Print Assumptions C05_growth_policy_unobservable.
 Print Assumptions C05_insert_domain.
@@ -75,3 +90,5 @@ Print Assumptions C05_delete_spec.
 Print Assumptions C05_sublist_spec.
 Print Assumptions C05_get_returns_stored.
 Print Assumptions C05_panic_frame.
+Print Assumptions C05_mutator_footprint.
+Print Assumptions C05_mutator_independent.
